@@ -73,10 +73,16 @@ def explore(W, outcome, chooser, maxlen=400):
             complete = True
             break
         ev = en[chooser(en, step) % len(en)]
-        if ev[0] == 'Start':
-            d.start_stage()
-        else:
-            d.do(ev)
+        try:
+            if ev[0] == 'Start':
+                d.start_stage()
+            else:
+                d.do(ev)
+        except RuntimeError as exc:
+            if 'controller loop stuck' not in str(exc):
+                raise
+            trace.append((ev, pre, pre))
+            break
         post = d.observe()
         trace.append((ev, pre, post))
         pre = post
